@@ -1178,15 +1178,15 @@ Section Oracles.
         | FKDE =>
             let step :=
               if truthy (s_ss s) then
-                match jv_nat (s_ss s) with
-                | Some n =>
-                    (* gaussian_kde(X, bw, w).resample(n) : global generator *)
-                    match kde_check (d_n X) false (s_bw s) (s_w s) with
-                    | None => Ok (JList [JList (map qj (o_resample X (s_bw s) (s_w s) n g))],
-                                  mkDraw (JStr "kde.fit.resample") n :: g)
-                    | Some e => Err e
+                (* gaussian_kde(X, bw, w) is built FIRST (its ValueError / LinAlgError win), THEN .resample(n) : global generator *)
+                match kde_check (d_n X) false (s_bw s) (s_w s) with
+                | None =>
+                    match jv_nat (s_ss s) with
+                    | Some n => Ok (JList [JList (map qj (o_resample X (s_bw s) (s_w s) n g))],
+                                    mkDraw (JStr "kde.fit.resample") n :: g)
+                    | None => Err TypeErr
                     end
-                | None => Err TypeErr
+                | Some e => Err e
                 end
               else Ok (JList (map qj (o_tolist X)), g) in
             match step with
@@ -1210,19 +1210,33 @@ Section Oracles.
   Variable o_choice : data -> nat -> grng -> data.
      (* np.random.choice(X, size=k) on the GLOBAL generator *)
 
+  (* `j < len(X)` for a truthy j *)
   Definition jlt_nat (j : jv) (n : nat) : bool :=
     match jv_q j with
     | Some q => negb (Qle_bool (inject_Z (Z.of_nat n)) q)
-    | None => false
+    | None => match j with JInf false => true | _ => false end
+    end.
+  (* ... which is a TypeError for a str / list / dict / set *)
+  Definition lt_raises (j : jv) : bool :=
+    match j with JStr _ | JList _ | JDict _ | JSet _ | JNone => true | _ => false end.
+  (* np.random.choice(X, size=j): an int (a bool or a float is a TypeError, a negative int a ValueError) *)
+  Definition choice_size (j : jv) : result nat :=
+    match j with
+    | JNum q => if (Qden q =? 1)%positive
+                then (if (Qnum q <? 0)%Z then Err ValueErr else Ok (Z.to_nat (Qnum q)))
+                else Err TypeErr
+    | JList _ | JSet _ | JDict _ => Err Unmodelled
+    | _ => Err TypeErr
     end.
 
   Definition fit_wrapper (u : uinst) (X : data) (g : grng) : uinst * grng * option err :=
     let sel :=
       if truthy (u_sel_ss u) && jlt_nat (u_sel_ss u) (d_n X) then
-        match jv_nat (u_sel_ss u) with
-        | Some k => Ok (o_choice X k g, mkDraw (JStr "choice") k :: g)
-        | None => Err TypeErr
+        match choice_size (u_sel_ss u) with
+        | Ok k => Ok (o_choice X k g, mkDraw (JStr "choice") k :: g)
+        | Err e => Err e
         end
+      else if truthy (u_sel_ss u) && lt_raises (u_sel_ss u) then Err TypeErr
       else Ok (X, g) in
     match sel with
     | Err e => (u, g, Some e)
